@@ -296,8 +296,8 @@ func compareAddr(addr1 net.Addr, addr2 net.Addr) bool {
 			return false
 		}
 
-		if ta1.IP == nil {
-		} else if ta2.IP == nil {
+		if ta1.IP == nil || ta1.IP.IsUnspecified() {
+		} else if ta2.IP == nil || ta2.IP.IsUnspecified() {
 		} else if !ta1.IP.Equal(ta2.IP) {
 			return false
 		}
@@ -313,8 +313,8 @@ func compareAddr(addr1 net.Addr, addr2 net.Addr) bool {
 			return false
 		}
 
-		if ua1.IP == nil {
-		} else if ua2.IP == nil {
+		if ua1.IP == nil || ua1.IP.IsUnspecified() {
+		} else if ua2.IP == nil || ua2.IP.IsUnspecified() {
 		} else if !ua1.IP.Equal(ua2.IP) {
 			return false
 		}
